@@ -340,10 +340,13 @@ def dropFactor (p : K) (keep : Bool) : K :=
   else if Scalar.le p zero then one
   else (if keep then one else zero) / (one - p)
 
+/-- the loop `for mul, (l, _p) in self.irreps` of Dropout (only `k, mul, d, ix` matter) -/
+def dblocks (irreps : Irreps) : List Block := blocksFrom false false irreps 0 0 0 0 0 0
+
 /-- the `[batch, irreps.dim]` noise tensor: per block `noise[:, :, None].expand(-1, -1, dim).reshape(batch, mul*dim)`,
 then `torch.cat(noises, dim=-1)`;  `mask b k u` = Bernoulli outcome of copy `u` of block `k` in sample `b` -/
 def dropNoise (irreps : Irreps) (p : K) (mask : Nat → Nat → Nat → Bool) : Nat → Nat → K :=
-  fun b => cat ((blocksFrom false false irreps 0 0 0 0 0 0).map fun blk =>
+  fun b => cat ((dblocks irreps).map fun blk =>
     (blk.mul * blk.d, fun j => dropFactor p (mask b blk.k (j / blk.d))))
 
 /-- `Dropout.forward` on a `[B, S, irreps.dim]` input -/
